@@ -572,6 +572,9 @@ def conn_menus():
     return out
 
 
+DATA_LEN = 2 * 64 + 5
+
+
 def _work_conn(item):
     cred, cch, sch, seed = item
     try:
@@ -579,14 +582,39 @@ def _work_conn(item):
         sst = build(sch).validate()
     except ValueError:
         return (cred, label_of(cch), label_of(sch), "invalid", None, None)
-    must, why = must_connect(cst, sst, cred)
-    sc = S.Scen("c19/%s" % cred, cred=cred)
+    base_cred = cred.split("+")[0]
+    must, why = must_connect(cst, sst, base_cred)
+    if cred.endswith("+clientauth"):
+        sc = S.Scen("c19/%s" % cred, cred=base_cred, client_cred="c_rsa",
+                    req_cert=True)
+    else:
+        sc = S.Scen("c19/%s" % cred, cred=cred)
     pair, out = S.connect(sc, seed=seed, csettings=build(cch),
                           ssettings=build(sch))
     ok = out["C"].status == "ok" and out["S"].status == "ok"
-    return (cred, label_of(cch), label_of(sch),
-            "ok" if ok else (repr(out["C"].sig()), repr(out["S"].sig())),
-            must, why)
+    outc = "ok" if ok else (repr(out["C"].sig()), repr(out["S"].sig()))
+    if ok and must:
+        # a connection the settings demand is one that carries data: more
+        # than two records' worth under the smallest record_size_limit of
+        # the menus, each way
+        for (src, dst) in (("C", "S"), ("S", "C")):
+            data = bytes(bytearray((i * 7 + 3) & 0xff
+                                   for i in range(DATA_LEN)))
+            w = pair.write(src, data)
+            got = b""
+            r = None
+            for _ in range(DATA_LEN):
+                if len(got) >= DATA_LEN:
+                    break
+                r = pair.read(dst, None, 1)
+                if r.status != "ok" or not r.value:
+                    break
+                got += bytes(r.value)
+            if w.status != "ok" or got != data:
+                outc = ("data %s->%s" % (src, dst), repr(w.sig()),
+                        repr(r.sig()) if r is not None else "-")
+                break
+    return (cred, label_of(cch), label_of(sch), outc, must, why)
 
 
 def run_connection(res, tier, seed):
@@ -620,6 +648,15 @@ def run_connection(res, tier, seed):
         for d in doubles:
             items.append((cred, d, (), seed))
             items.append((cred, (), d, seed))
+    # client certificates (a handshake message of the client that spans
+    # several records) against every record_size_limit combination
+    rsl = [()] + [x for x in singles if x and x[0][0] == "record_size_limit"]
+    max12 = [v for v in dict(M)["maxVersion"] if v[1] == (3, 3)][0]
+    for a in rsl:
+        for b in rsl:
+            items.append(("rsa+clientauth", a, b, seed))
+            items.append(("rsa+clientauth", a, b + (("maxVersion", max12),),
+                          seed))
     demanded = 0
     n = 0
     for (cred, la, lb, outc, must, why) in pmap(_work_conn, items):
